@@ -24,6 +24,7 @@
   `errorWithPosition` (Model/Run.lean), which the correspondence harness checks.
 -/
 import ParsleyVerif.Proofs.TxtTieFileSet
+import ParsleyVerif.Proofs.TxtTieNewFile
 import ParsleyVerif.Props.C11
 namespace PV.TxtTie
 open PV.ProgPrelude PV.FactsProg PV.ProgTie
@@ -134,6 +135,66 @@ theorem c11p_example :
       [120, 58, 50, 58, 49] ∧
     (match Position_String { Filename := "", Line := 12, Column := 3 } c11pSt with | .ok s _ => s | _ => []) =
       [49, 50, 58, 51] := by
+  decide
+
+/-! ### text.NewFile (text/file.go), translated
+
+  `NewFile(filename, data)` is translated like the functions above (`FactsProg.NewFile`): `bytes.Replace(data, "\r\n", "\n",
+  -1)` is the prelude's general replacement primitive `Go.bytesReplaceAll` (every non-overlapping occurrence from the left,
+  the result in a fresh array), the struct literal gets Go's zero values for the fields it does not mention (`lines` nil,
+  `len` 0), `f.len = len(f.data)` is a field write of the local struct; the parameter `filename` is only stored, so it is
+  text (a Lean `String`, like the field it goes to).  The TEXT fact `Facts.newFileData` that C11 used to pin is subsumed. -/
+
+/-- **NewFile, about the translated code**: for every heap state, every name and every data slice of that state (a header
+    into an existing array, or an empty slice — nil included) showing the bytes `raw`, the translated `NewFile` answers (no
+    panic) a file that shows the model's `Text.newFile name raw` (`FileOk`: its data reads as `normCRLF raw`, `len` is
+    that many, `offset` is `Facts.newFileOffset`, the name is kept, the line cache is absent), the fields spelled out; every
+    array that existed is unchanged (`Keeps`), and the data is a fresh array (or the nil slice, when `raw` is empty) -/
+theorem c11p_newFile :
+    FactsProg.translatedProg.contains "NewFile" = true ∧
+    ∀ (st : ProgPrelude.St) (name : String) (D : ProgPrelude.Sl) (raw : List Nat),
+      view st D = ints raw → (D.arr < st.arrays.length ∨ D.len = 0) →
+      ∃ (F : FactsProg.File) (st' : ProgPrelude.St),
+        NewFile name D st = .ok F st' ∧ FileOk st' F (Text.newFile name raw) ∧ F.lines = Go.nilSl ∧
+        F.offset = (Facts.newFileOffset : Int) ∧ F.filename = name ∧
+        view st' F.data = ints (Text.normCRLF raw) ∧ F.len = ((Text.normCRLF raw).length : Int) ∧
+        Keeps st.arrays.length st st' ∧ (F.data.isNil = true ∨ st.arrays.length ≤ F.data.arr) :=
+  ⟨by decide, fun st name D raw hv hD => tie_NewFile st name D raw hv hD⟩
+
+/-- the prelude's general replacement, at old = "\r\n" and new = "\n", is the model's normalisation -/
+theorem c11p_replace_is_normCRLF (raw : List Nat) :
+    ProgPrelude.replaceAll [13, 10] [10] 0 (ints raw) = ints (Text.normCRLF raw) :=
+  replaceAll_crlf raw
+
+/-- … and a file made by the translated `NewFile` can be handed to the translated `NewFileSet` (`c11p_newFileSet`) -/
+theorem c11p_newFile_filesRel (st : ProgPrelude.St) (name : String) (D : ProgPrelude.Sl) (raw : List Nat)
+    (hv : view st D = ints raw) (hD : D.arr < st.arrays.length ∨ D.len = 0) :
+    ∃ (F : FactsProg.File) (st' : ProgPrelude.St),
+      NewFile name D st = .ok F st' ∧ FilesRel st' [F] [Text.newFile name raw] := by
+  obtain ⟨F, st', e, ok, _⟩ := tie_NewFile st name D raw hv hD
+  exact ⟨F, st', e, FilesRel.cons_iff.mpr ⟨ok, FilesRel.nil _⟩⟩
+
+/-! non-vacuity: "a\r\nb\r\r\n" (array 0 of a two-array heap, behind a header with offset 1) becomes "a\nb\r\n"; the result
+    is array 4 (after the two pattern arrays), array 0 is untouched; an input without "\r\n" is copied; the empty input
+    gives the nil slice -/
+
+def c11pNfSt : ProgPrelude.St := { arrays := [[0, 97, 13, 10, 98, 13, 13, 10, 7], [5]], maps := [], grow := fun c => 2 * c + 1 }
+
+/-- the answer as (name, data as read, [lines is nil, len, offset, data is nil], array 0 afterwards) -/
+def c11pNfRun (D : ProgPrelude.Sl) : Option (String × List Int × List Int × List Int) :=
+  match NewFile "x" D c11pNfSt with
+  | .ok F st' =>
+    some (F.filename, view st' F.data,
+      [if F.lines.isNil then 1 else 0, F.len, F.offset, if F.data.isNil then 1 else 0], ProgPrelude.cells st' 0)
+  | _ => none
+
+theorem c11p_newFile_example :
+    view c11pNfSt { arr := 0, off := 1, len := 7, cap := 8 } = ints [97, 13, 10, 98, 13, 13, 10] ∧
+    c11pNfRun { arr := 0, off := 1, len := 7, cap := 8 } =
+      some ("x", [97, 10, 98, 13, 10], [1, 5, 1, 0], [0, 97, 13, 10, 98, 13, 13, 10, 7]) ∧
+    c11pNfRun { arr := 1, off := 0, len := 1, cap := 1 } = some ("x", [5], [1, 1, 1, 0], [0, 97, 13, 10, 98, 13, 13, 10, 7]) ∧
+    c11pNfRun Go.nilSl = some ("x", [], [1, 0, 1, 1], [0, 97, 13, 10, 98, 13, 13, 10, 7]) ∧
+    (Text.newFile "x" [97, 13, 10, 98, 13, 13, 10]).data = [97, 10, 98, 13, 10] := by
   decide
 
 end PV.TxtTie
